@@ -362,6 +362,22 @@ func TestVerif_C03(t *testing.T) {
 			r.Pass(id)
 		}
 	}
+	for i := 0; i < r.Pick(16, 200); i++ {
+		id := fmt.Sprintf("close-send-fails-%d", i)
+		if !r.Mine(id) {
+			continue
+		}
+		cfg := rigCfg{Method: methods[i%4], NumConn: []int{1, 2, 4, 0}[(i/4)%4], Seg: "all"}
+		r.Case(id, cfg)
+		k, d := c03CloseSendFails(t, r, id, cfg, i%2 == 0)
+		r.Distinct("cases", vk.Hash64("csf", cfg, i))
+		r.Count("close_send_fails_cases", 1)
+		if k != "" {
+			r.Violation(id, "C03:"+k, fmt.Sprintf("%s; cfg %+v", d, cfg), cfg)
+		} else {
+			r.Pass(id)
+		}
+	}
 	for i := 0; i < r.Pick(24, 300); i++ {
 		id := fmt.Sprintf("local-unread-%d", i)
 		if !r.Mine(id) {
@@ -453,6 +469,89 @@ func c03CrossClose(t *testing.T, r *vk.Reporter, id string, cfg rigCfg, big int)
 		sz.SetReadDeadline(time.Now().Add(time.Minute))
 		if _, err := io.ReadFull(sz, got); err != nil || string(got) != string(msg) {
 			kind, detail = "session-stalled", fmt.Sprintf("after the crossing closes another stream of the same healthy session no longer carries data: %v", err)
+		}
+		g.closeAll()
+		vk.Wait()
+	})
+	if p != nil && !leftover && kind == "" {
+		kind, detail = "panic", fmt.Sprint(p)
+	}
+	return
+}
+
+// c03CloseSendFails: a reader is parked in Read when its own side closes the stream and the send of
+// the closing notice fails (the connection reports a write error). "Once a side has closed the
+// stream its blocked reads return" - also then.
+func c03CloseSendFails(t *testing.T, r *vk.Reporter, id string, cfg rigCfg, byOpener bool) (kind, detail string) {
+	rng := r.Rand("c03f", id)
+	p, leftover := vk.InBubble(t, func() {
+		cfg.Inactivity = 100 * time.Hour
+		g := newRigA(cfg, rng)
+		for i := 0; i < g.nconn(); i++ {
+			g.addConn()
+		}
+		st, err := g.cli.OpenStream()
+		if err != nil {
+			kind, detail = "harness", err.Error()
+			return
+		}
+		st.Write([]byte("hello"))
+		var ac *Stream
+		go func() {
+			c, err := g.srv.Accept()
+			if err == nil {
+				ac = c.(*Stream)
+			}
+		}()
+		vk.Wait()
+		if ac == nil {
+			kind, detail = "not-accepted", "stream not accepted"
+			return
+		}
+		b := make([]byte, 5)
+		io.ReadFull(ac, b)
+		mine, dir := st, 0
+		if !byOpener {
+			mine, dir = ac, 1
+		}
+		var readReturned, closeReturned bool
+		var readErr error
+		go func() {
+			_, readErr = mine.Read(make([]byte, 100))
+			readReturned = true
+		}()
+		vk.Wait()
+		if readReturned {
+			kind, detail = "harness", "the reader was not parked"
+			return
+		}
+		for _, pp := range g.pipes {
+			pp.FailNextWrite(dir)
+		}
+		go func() { mine.Close(); closeReturned = true }()
+		vk.Wait()
+		time.Sleep(10 * time.Minute)
+		vk.Wait()
+		if !closeReturned {
+			kind, detail = "close-blocked", "Close did not return within 10 virtual minutes after the send of its closing notice failed"
+			return
+		}
+		if !readReturned {
+			kind, detail = "reader-parked", "a Read that was blocked when its own side closed the stream is still parked 10 virtual minutes later (the send of the closing notice had failed)"
+			return
+		}
+		if readErr == nil {
+			kind, detail = "reader-no-error", "the blocked Read returned without an error and without bytes after the local Close"
+			return
+		}
+		// a later Read must fail too, not block
+		var again bool
+		go func() { mine.Read(make([]byte, 10)); again = true }()
+		vk.Wait()
+		time.Sleep(time.Minute)
+		vk.Wait()
+		if !again {
+			kind, detail = "reader-parked", "a Read issued after the local Close blocks forever"
 		}
 		g.closeAll()
 		vk.Wait()
